@@ -47,6 +47,29 @@ MEAS = {"X": qr.textbook("H"), "Z": np.eye(2, dtype=complex),
         "Y": qr.textbook("H") @ qr.textbook("Z") @ qr.textbook("S")}
 
 
+def rho_from_counts(counts_by_setting: dict, n: int):
+    """Linear-inversion state tomography written independently of lightworks: counts_by_setting maps a measurement
+    setting such as 'XZY' to {dual-rail bit tuple: count}. Identity factors are taken from the Z measurement of that
+    qubit. Works for integer, float and unnormalised counts alike."""
+    from itertools import product
+    paulis = {"I": np.eye(2, dtype=complex), "X": qr.textbook("X"), "Y": qr.textbook("Y"), "Z": qr.textbook("Z")}
+    rho = np.zeros((2 ** n, 2 ** n), dtype=complex)
+    for p in product("IXYZ", repeat=n):
+        setting = "".join("Z" if g == "I" else g for g in p)
+        counts = counts_by_setting[setting]
+        tot = sum(counts.values())
+        ev = 0.0
+        for bits, cnt in counts.items():
+            sign = 1
+            for q, g in enumerate(p):
+                if g != "I" and bits[q] == 1:
+                    sign = -sign
+            ev += sign * cnt
+        ev /= tot
+        rho += ev * kron_all([paulis[g] for g in p]) / 2 ** n
+    return rho
+
+
 def kron_all(mats):
     out = np.array([[1.0 + 0j]])
     for m in mats:
